@@ -22,6 +22,8 @@ static std::vector<Lim> limits() {
         {"int_max", 32767, {32766, 32767, 32768, 100000}}, {"int_min", -32768, {-32767, -32768, -32769, -100000}}, {"param_blocks", 255, {127, 128, 254, 255, 256, 300}}, {"record_offset", 65535, {32767, 32768, 65534, 65535, 65536, 80008, 262144}},
         // bytes of the parameter section up to (not including) its one-byte terminator: 255 blocks hold 255*512-1 of them (byte-exact, where param_blocks moves in steps of a whole record)
         {"param_section_bytes", 130559, {130558, 130559, 130560, 131200}},
+        // the last frame NUMBER (header word 5): not reachable through c3d (its first frame is always 0), reachable by writing Header, Parameters and Data stand-alone (all public)
+        {"standalone_last_frame", 65535, {65534, 65535, 65536, 100010}},
     };
 }
 // every quantity also at the powers of two (and their neighbours) below its limit: growth steps of containers, buffer sizes, bit widths of counters
@@ -35,7 +37,7 @@ static std::string levelClass(const Lim& l, long v) { long a = std::labs(v), b =
 static bool within(const Lim& l, long v) { return std::labs(v) <= std::labs(l.L); }
 
 // applies one (dimension, value) to the object under construction; returns false if not constructible
-struct Build { C3D c; long nPoints = 1, nChans = 0, nFrames = 1, wantBlocks = 0, wantSection = 0; std::string c10; };
+struct Build { C3D c; long nPoints = 1, nChans = 0, nFrames = 1, wantBlocks = 0, wantSection = 0, standaloneLast = 0; std::string c10, c05; };
 static void applyLimit(Build& b, const std::string& dim, long v) {
     if (dim == "param_description") { Param p("DESCR", std::string((size_t)v, 'x')); p.set(3); b.c.parameter("LIMITS", p); }
     else if (dim == "param_name") { Param p(std::string((size_t)v, 'N')); p.set(4); b.c.parameter("LIMITS", p); }
@@ -49,6 +51,7 @@ static void applyLimit(Build& b, const std::string& dim, long v) {
     else if (dim == "string_count") { Param p("MANYSTR"); std::vector<std::string> s; for (long i = 0; i < v; ++i) s.push_back("s" + std::to_string(i)); p.set(s); b.c.parameter("LIMITS", p); }
     else if (dim == "points") b.nPoints = v; else if (dim == "channels") b.nChans = v; else if (dim == "frames" || dim == "last_frame") b.nFrames = v;
     else if (dim == "int_max" || dim == "int_min") { Param p(dim == "int_max" ? "BIGINT" : "SMALLINT"); p.set(std::vector<int>() = {(int)v, 1}); b.c.parameter("LIMITS", p); }
+    else if (dim == "standalone_last_frame") { b.standaloneLast = v; b.nFrames = 10; }
     else if (dim == "param_section_bytes") b.wantSection = v;
     else if (dim == "param_blocks") b.wantBlocks = v;   // filled adaptively in finishAndCheck (the section length is only known from a save)
     else if (dim == "record_offset") {   // value of the record's 16-bit next-record offset = 5 + #dims + data bytes
@@ -80,7 +83,16 @@ static std::string finishAndCheck(Build& b, const std::string& dir, std::string&
     if (b.nPoints) b.c.parameter("POINT", mkRate(100.f)); if (b.nChans) b.c.parameter("ANALOG", mkRate(100.f));
     Shape sh; for (long i = 0; i < b.nPoints; ++i) sh.pts.push_back("P" + std::to_string(i)); for (long i = 0; i < b.nChans; ++i) sh.chans.push_back("c" + std::to_string(i)); sh.nsub = b.nChans ? 1 : 0;
     Frame f0 = buildFrame(sh, 0), f1 = buildFrame(sh, 1);
-    for (long f = 0; f < b.nFrames; ++f) b.c.frame((f % 2) ? f1 : f0);
+    for (long f = 0; f < b.nFrames; ++f) {
+        try { b.c.frame((f % 2) ? f1 : f0); }
+        catch (...) {   // a refused append must leave the three frame counts as they were (cheap form of the C10 comparison: the objects here are too large to dump)
+            size_t stored = b.c.data().nbFrames(); long par = b.c.parameters().group("POINT").parameter("FRAMES").valuesAsInt().at(0);
+            if ((long)stored != f || par != f) b.c10 += (b.c10.empty() ? "" : "; ") + std::string("frame append #") + std::to_string(f) + " threw, yet " + std::to_string(stored) + " frames are stored and POINT:FRAMES says " + std::to_string(par);
+            // … and after the NEXT successful call the three views of the frame count agree (C05)
+            if (guarded([&] { Param n("NOTE"); n.set(1); b.c.parameter("AFTERREFUSAL", n); }) == OK) { size_t st2 = b.c.data().nbFrames(), hd = b.c.header().nbFrames(); long pf = b.c.parameters().group("POINT").parameter("FRAMES").valuesAsInt().at(0);
+                if (hd != st2 || (long)st2 != pf) b.c05 += "after a refused frame append and one more successful call: header " + std::to_string(hd) + " frames, POINT:FRAMES " + std::to_string(pf) + ", stored " + std::to_string(st2); }
+            throw; }
+    }
     if (b.wantSection && !b.wantBlocks) b.wantBlocks = 254;   // coarse fill first, then byte-exact tuning below
     if (b.wantBlocks) {   // grow the parameter section to exactly wantBlocks blocks: 60 000-byte fillers, then 480-byte ones
         int k = 0; size_t have = paramBlocksOf(b.c, dir);
@@ -97,6 +109,16 @@ static std::string finishAndCheck(Build& b, const std::string& dir, std::string&
         while (delta >= 2 * 14 + 255) { add(255); delta -= 14 + 255; }
         if (delta > 14 + 255) { long half = delta / 2; add(half - 14); delta -= half; }
         add(delta - 14);
+    }
+    if (b.standaloneLast) {   // header copied out, renumbered to (last-9 .. last), and the three parts written by hand, as c3d::write does
+        ezc3d::Header h(b.c.header()); h.firstFrame((size_t)(b.standaloneLast - 10)); h.lastFrame((size_t)(b.standaloneLast - 1));   // (the Header counts from 0, the file from 1: file number v = internal v-1)
+        std::string p2 = dir + "/standalone.c3d", what2; freshDestination(p2);
+        Outcome o1 = guarded([&] { std::fstream f(p2, std::ios::out | std::ios::binary); h.write(f); b.c.parameters().write(f); std::streampos dp(f.tellg()); int blk((int)dp / 512 + 1); f.seekg(16); f.write((const char*)&blk, 2); f.seekg(dp); b.c.data().write(f); f.close(); }, &what2);
+        if (o1 != OK) { detail = what2; return std::string("save_throws:") + outcomeName(o1); }
+        std::unique_ptr<C3D> L2; o1 = guarded([&] { L2.reset(new C3D(p2)); }, &what2);
+        if (o1 != OK) { detail = what2; return std::string("reload_throws:") + outcomeName(o1); }
+        if (L2->header().firstFrame() != (size_t)(b.standaloneLast - 10) || L2->header().lastFrame() != (size_t)(b.standaloneLast - 1) || L2->data().nbFrames() != 10) { detail = "written frames " + std::to_string(b.standaloneLast - 9) + ".." + std::to_string(b.standaloneLast) + ", loaded " + std::to_string(L2->header().firstFrame() + 1) + ".." + std::to_string(L2->header().lastFrame() + 1) + " (" + std::to_string(L2->data().nbFrames()) + " frames)"; return "reload_differs:header.frame_numbers"; }
+        return "roundtrip";
     }
     OSnap saved = snapObject(b.c); std::string p = dir + "/limit.c3d", what;
     freshDestination(p);
@@ -137,8 +159,9 @@ static int runC17(const std::string& tier, const std::string& scratch, const std
             for (size_t i = (size_t)wi; i < cases.size(); i += (size_t)workers) {
                 fprintf(fo, "%zu\tSTART\t\n", i); fflush(fo);
                 std::string detail, outc;
-                std::string c10;
-                Outcome oc = guarded([&] { Build b; try { for (auto& p2 : cases[i].parts) applyLimit(b, L[(size_t)p2.first].dim, p2.second); outc = finishAndCheck(b, dir, detail); } catch (...) { c10 = b.c10; throw; } c10 = b.c10; }, &detail);
+                std::string c10, c05;
+                Outcome oc = guarded([&] { Build b; try { for (auto& p2 : cases[i].parts) applyLimit(b, L[(size_t)p2.first].dim, p2.second); outc = finishAndCheck(b, dir, detail); } catch (...) { c10 = b.c10; c05 = b.c05; throw; } c10 = b.c10; c05 = b.c05; }, &detail);
+                if (!c05.empty()) { fprintf(fo, "%zu\tC05\t%s\n", i, c05.c_str()); fflush(fo); }
                 if (oc != OK) outc = std::string("build_throws:") + outcomeName(oc);
                 if (!c10.empty()) { fprintf(fo, "%zu\tC10\t%s\n", i, c10.c_str()); fflush(fo); }
                 for (auto& ch : detail) if (ch == '\t' || ch == '\n') ch = ' ';
@@ -167,6 +190,7 @@ static int runC17(const std::string& tier, const std::string& scratch, const std
             size_t a = line.find('\t'), b = line.find('\t', a + 1); if (a == std::string::npos || b == std::string::npos) continue;
             size_t i = (size_t)strtoull(line.c_str(), nullptr, 10); std::string outc = line.substr(a + 1, b - a - 1);
             if (outc == "START") { started = (long)i; continue; }
+            if (outc == "C05") { std::string sig = "C05|frame_counts_disagree/at-capacity-limit/" + L[(size_t)cases[i].parts[0].first].dim; auto it = viol.find(sig); if (it == viol.end()) viol[sig] = {sig, caseText(cases[i], L), line.substr(b + 1), 1, false, i}; else it->second.count++; continue; }
             if (outc == "C10") { std::string sig = "C10|changed_on_throw/at-capacity-limit/" + L[(size_t)cases[i].parts[0].first].dim; auto it = viol.find(sig); if (it == viol.end()) viol[sig] = {sig, caseText(cases[i], L), "a refused declaration left the object changed: " + line.substr(b + 1), 1, false, i}; else it->second.count++; continue; }
             started = -1; handle(i, outc, line.substr(b + 1));
         }
